@@ -50,7 +50,13 @@ func newErrInvalidOperand(val Operand, typeObj interface{}) *ErrInvalidOperand {
 	}
 }
 
-func (e *ErrInvalidOperand) Error() string {
+func (e *ErrInvalidOperand) Error() (text string) {
+	// printing the operand can panic (a String method that keeps panicking)
+	defer func() {
+		if r := recover(); r != nil {
+			text = fmt.Sprintf("Operand is not the correct type. Expected: %T, Actual: %T", e.typeObj, e.Val)
+		}
+	}()
 	// %T also prints untyped nil values (reflect.TypeOf(nil) is a nil Type)
 	return fmt.Sprintf("Operand %v is not the correct type. Expected: %T, Actual: %T",
 		e.Val,
